@@ -42,18 +42,45 @@ type Conn struct {
 	// Waiting is true while a managed thread is parked in Read with nothing to read
 	// (a harness driver waits for this to know the handler has consumed its input).
 	Waiting bool
+	// Blocking makes a Read with nothing to read wait (for Feed / ClosePeer / Close) when no
+	// scheduler is installed: a real handler goroutine then stays parked like on a socket.
+	Blocking bool
+	cond     *sync.Cond
+}
+
+func (c *Conn) wake() {
+	if c.cond != nil {
+		c.cond.Broadcast()
+	}
+}
+
+// WaitIdle blocks (free-running mode) until the reader is parked with nothing to read, or
+// the connection was closed locally.  The wait is for completion of the handler's work,
+// bounded only by a generous deadline (returns false on expiry).
+func (c *Conn) WaitIdle(d time.Duration) bool {
+	deadline := time.Now().Add(d)
+	for time.Now().Before(deadline) {
+		c.mu.Lock()
+		idle := (c.Waiting && c.in.Len() == 0) || c.Closed
+		c.mu.Unlock()
+		if idle {
+			return true
+		}
+		time.Sleep(200 * time.Microsecond)
+	}
+	return false
 }
 
 func NewConn(name string) *Conn { return &Conn{Name: name} }
 
 // Feed appends bytes the peer sends.
-func (c *Conn) Feed(b []byte) { c.mu.Lock(); c.in.Write(b); c.mu.Unlock() }
+func (c *Conn) Feed(b []byte) { c.mu.Lock(); c.in.Write(b); c.wake(); c.mu.Unlock() }
 
 // PendingIn returns the bytes fed but not yet read.
 func (c *Conn) PendingIn() []byte { c.mu.Lock(); defer c.mu.Unlock(); return append([]byte{}, c.in.Bytes()...) }
 
 // ClosePeer marks the end of the peer's stream.
-func (c *Conn) ClosePeer() { c.mu.Lock(); c.PeerClosed = true; c.mu.Unlock() }
+func (c *Conn) ClosePeer() { c.mu.Lock(); c.PeerClosed = true; c.wake(); c.mu.Unlock() }
 
 func (c *Conn) readable() bool {
 	c.mu.Lock()
@@ -75,6 +102,16 @@ func (c *Conn) Read(p []byte) (int, error) {
 	}
 	c.mu.Lock()
 	defer c.mu.Unlock()
+	if c.Blocking && vsched.Active() == nil {
+		if c.cond == nil {
+			c.cond = sync.NewCond(&c.mu)
+		}
+		for c.in.Len() == 0 && !c.PeerClosed && !c.Closed {
+			c.Waiting = true
+			c.cond.Wait()
+		}
+		c.Waiting = false
+	}
 	if c.Closed {
 		return 0, ErrClosed
 	}
@@ -114,6 +151,7 @@ func (c *Conn) Write(p []byte) (int, error) {
 func (c *Conn) Close() error {
 	c.mu.Lock()
 	c.Closed = true
+	c.wake()
 	c.mu.Unlock()
 	return nil
 }
